@@ -29,6 +29,7 @@ EXPLANATION = (
     "(attribute/item store, augmented assignment, inplace=True, del) is reachable on an object that aliases an operand in "
     "any function of the broadcaster module. Not decided: that the aligned values are right. Exception paths between "
     "acquire and release are not covered (the property speaks about calls that return).")
+EXPLANATION += (' R-C13-4: the acquire helper gives placeholders exactly to the level names that are None (identity test, not truthiness), the release helper resets exactly the placeholders, and where an aligned pair is re-ordered both results are re-ordered to the canonical level order.')
 ASSUMPTIONS = [
     "pandas methods without inplace=True return new objects (align, join, reorder_levels, groupby().first(), iloc)",
     "assigning obj.index.names mutates the Index object held by obj (so a saved Index keeps a placeholder name until the "
